@@ -39,7 +39,12 @@ def expected(prog, t):
     if k in ("slice", "oslice", "str", "ostr", "strs"):
         return ("slice",)
     if k == "cb":
-        return ("cb",)
+        # DiplomatCallback<R> { data, run_callback: extern "C" fn(*mut c_void, args...) -> R, destructor }
+        return ("struct", (("ptr",), ("fn", (("ptr",),) + tuple(expected(prog, a) for a in t[1]), expected(prog, t[2])), ("fnptr",)))
+    if k == "tr":
+        # DiplomatTraitStruct_T { data, vtable: T_VTable { destructor, size, alignment, run_<m>_callback... } }
+        fns = tuple(("fn", (("ptr",),) + tuple(expected(prog, a) for a in margs), expected(prog, mret)) for _, _, margs, mret in t[2])
+        return ("struct", (("ptr",), ("struct", (("fnptr",), ("word",), ("word",)) + fns)))
     if k == "unit":
         return ("void",)
     if k == "ordering":
@@ -64,6 +69,8 @@ def method_desc(prog, owner, m):
 
 
 def normalise(d):
+    if d[0] == "fn":
+        return ("fn", tuple(normalise(x) for x in d[1]), normalise(d[2]))
     if d[0] in ("struct", "union"):
         inner = tuple(normalise(x) for x in d[1])
         inner = tuple(x for x in inner if x != ("union", ()))          # an empty union occupies nothing
@@ -86,7 +93,29 @@ def compatible(exp, obs, lang, in_field=False):
         return obs in (("bool",), ("i", 8, True))          # Boolean for parameters, Byte for fields and flags
     if exp[0] in ("struct", "union") and obs[0] == exp[0] and len(exp[1]) == len(obs[1]):
         return all(compatible(a, b, lang, True) for a, b in zip(exp[1], obs[1]))
+    if exp == ("word",):
+        return obs in (("usize",), ("ptr",))       # a trait vtable's size / alignment: any pointer-sized carrier (Kotlin declares Pointer)
+    if exp[0] == "fn" and obs[0] == "fn" and len(exp[1]) == len(obs[1]):
+        return all(compatible(a, b, lang, False) for a, b in zip(exp[1], obs[1])) and compatible(exp[2], obs[2], lang, False)
     return False
+
+
+def mismatches(exp, obs, lang, in_field=False, path=""):
+    """Leaf-level disagreements between two descriptors: [(path, expected leaf, observed leaf)] (empty iff compatible)."""
+    e, o = normalise(exp), normalise(obs)
+    if compatible(e, o, lang, in_field):
+        return []
+    if e[0] in ("struct", "union") and o[0] == e[0] and len(e[1]) == len(o[1]):
+        out = []
+        for i, (a, b) in enumerate(zip(e[1], o[1])):
+            out += mismatches(a, b, lang, True, "%s.%d" % (path, i))
+        return out
+    if e[0] == "fn" and o[0] == "fn" and len(e[1]) == len(o[1]):
+        out = []
+        for i, (a, b) in enumerate(zip(e[1], o[1])):
+            out += mismatches(a, b, lang, False, "%s(arg%d)" % (path, i))
+        return out + mismatches(e[2], o[2], lang, False, path + "(ret)")
+    return [(path, e, o)]
 
 
 def show(d):
@@ -95,6 +124,10 @@ def show(d):
         return "%s%d" % ("i" if d[2] else "u", d[1])
     if d[0] in ("struct", "union"):
         return "%s{%s}" % (d[0], ",".join(show(x) for x in d[1]))
+    if d[0] == "fn":
+        return "fn(%s)->%s" % (",".join(show(x) for x in d[1]), show(d[2]))
+    if d[0] == "?":
+        return "?%s" % (d[1],)
     return d[0]
 
 
@@ -165,7 +198,7 @@ class DartReader:
 
 # --------------------------------------------------------------------------------------------- Kotlin
 
-KT_PRIM = {"Byte": ("i", 8, True), "Short": ("i", 16, True), "Int": ("i", 32, True), "Long": ("i", 64, True), "FFIUint8": ("i", 8, False),
+KT_PRIM = {"UByte": ("i", 8, False), "UShort": ("i", 16, False), "UInt": ("i", 32, False), "ULong": ("i", 64, False), "Byte": ("i", 8, True), "Short": ("i", 16, True), "Int": ("i", 32, True), "Long": ("i", 64, True), "FFIUint8": ("i", 8, False),
            "FFIUint16": ("i", 16, False), "FFIUint32": ("i", 32, False), "FFIUint64": ("i", 64, False), "FFISizet": ("usize",), "FFIIsizet": ("isize",),
            "Float": ("f32",), "Double": ("f64",), "Boolean": ("bool",), "Pointer": ("ptr",), "Pointer?": ("ptr",), "Unit": ("void",)}
 
@@ -190,6 +223,11 @@ class KotlinReader:
                 self.classes[name] = ("struct", [(n, fields.get(n, "?missing")) for n in names], set(fields) - set(names))
             else:
                 self.classes[name] = ("union", list(fields.items()), set())
+        # JNA callback interfaces: the native signature of a callback's run function / a trait's vtable entry
+        self.runners = {}
+        for m in re.finditer(r"internal interface (Runner_\w+)\s*:\s*Callback\s*\{\s*fun invoke\((.*?)\)\s*:\s*([\w?]+)", txt, re.S):
+            name, args, ret = m.groups()
+            self.runners[name] = ([a.split(":", 1)[1].strip() for a in split_top(args)] if args.strip() else [], ret)
         for blk in re.findall(r"internal interface \w+Lib: Library \{(.*?)\n\}", txt, re.S):
             for m in re.finditer(r"fun (\w+)\((.*?)\)(?:\s*:\s*([\w?]+))?\s*$", blk, re.M):
                 sym, args, ret = m.groups()
@@ -199,8 +237,11 @@ class KotlinReader:
     def resolve(self, ty):
         if ty in KT_PRIM:
             return KT_PRIM[ty]
-        if ty.startswith("DiplomatCallback_") or ty.startswith("DiplomatTrait_"):
-            return ("cb",)
+        if ty == "Callback":
+            return ("fnptr",)
+        if ty in self.runners:
+            args, ret = self.runners[ty]
+            return ("fn", tuple(self.resolve(a) for a in args), self.resolve(ret))
         if ty in self.classes:
             kind, fields, extra = self.classes[ty]
             if extra:
